@@ -253,6 +253,15 @@ def split_cases(path, nshards, outdir, tag):
     return paths
 
 
+def _big_stack():
+    # the extracted model recurses over long lists (megabyte values, large tables)
+    import resource
+    try:
+        resource.setrlimit(resource.RLIMIT_STACK, (resource.RLIM_INFINITY, resource.RLIM_INFINITY))
+    except (ValueError, OSError):
+        pass
+
+
 def run_parallel(cmds, timeout, env=None):
     """cmds: list of (argv, outpath). Runs up to NCPU at once. Returns list of rc."""
     procs = []
@@ -265,7 +274,7 @@ def run_parallel(cmds, timeout, env=None):
             i, (argv, outp) = pending.pop(0)
             fo = open(outp, "w")
             fe = open(outp + ".err", "w")
-            running.append((i, subprocess.Popen(argv, stdout=fo, stderr=fe, env=env), fo, fe))
+            running.append((i, subprocess.Popen(argv, stdout=fo, stderr=fe, env=env, preexec_fn=_big_stack), fo, fe))
         still = []
         for (i, p, fo, fe) in running:
             rc = p.poll()
